@@ -208,9 +208,29 @@ impl FsCommand {
     /// operations that the real run does not perform.
     fn check_preconditions(&self) -> io::Result<()> {
         match self {
+            FsCommand::Remove { .. } => Ok(()),
+            FsCommand::SoftLink { link, .. }
+            | FsCommand::HardLink { link, .. }
+            | FsCommand::RefLink { link, .. } => Self::check_can_create_temp_file(&link.path),
             FsCommand::Move { source, target, .. } => Self::check_can_rename(&source.path, target),
-            _ => Ok(()),
         }
+    }
+
+    /// The file is replaced with the help of a temporary sibling.
+    /// Its name must fit in the longest possible path.
+    fn check_can_create_temp_file(path: &Path) -> io::Result<()> {
+        #[cfg(unix)]
+        if Self::temp_file(path).to_path_buf().as_os_str().len() >= libc::PATH_MAX as usize {
+            return Err(io::Error::new(
+                ErrorKind::InvalidInput,
+                format!(
+                    "Cannot replace {}: the path of its directory is too long \
+                     to create a temporary file in it",
+                    path.display()
+                ),
+            ));
+        }
+        Ok(())
     }
 
     fn check_can_rename(source: &Path, target: &Path) -> io::Result<()> {
@@ -364,16 +384,24 @@ impl FsCommand {
             .expect("must be a regular file with a name");
         // File names are limited to 255 bytes on most file systems,
         // leave the room for the 25 bytes of the suffix.
-        // The same applies to the length of the whole path.
+        // The same applies to the length of the whole path. There, the random part can be
+        // made shorter as well, but not so short that it could be the name of another file.
+        let mut random_len = 24;
         #[cfg(unix)]
         let name = {
             use std::os::unix::ffi::{OsStrExt, OsStringExt};
             let bytes = name.as_bytes();
             let path_len = path.to_path_buf().as_os_str().len();
             let max_path_len = libc::PATH_MAX as usize - 1;
-            let room_in_path =
-                bytes.len() - min(bytes.len(), (path_len + 25).saturating_sub(max_path_len));
-            let len = min(min(bytes.len(), 230), room_in_path);
+            let room_for_name = max_path_len.saturating_sub(path_len - bytes.len());
+            let len = min(
+                min(bytes.len(), 230),
+                room_for_name.saturating_sub(random_len + 1),
+            );
+            let room_for_random = room_for_name.saturating_sub(len + 1);
+            if (12..random_len).contains(&room_for_random) {
+                random_len = room_for_random;
+            }
             std::ffi::OsString::from_vec(bytes[..len].to_vec())
         };
         let mut name = name;
@@ -381,7 +409,7 @@ impl FsCommand {
         name.push(
             rand::thread_rng()
                 .sample_iter(&Alphanumeric)
-                .take(24)
+                .take(random_len)
                 .map(char::from)
                 .collect::<String>(),
         );
